@@ -786,6 +786,34 @@ func RunHistReuse(r *Run) {
 				reused++
 				trace = append(trace, fmt.Sprintf("deserialize of a damaged blob (%s, writer mode %d) into a reused dst -> err=%v", how, bl.mode, derr != nil))
 				r.Res.Evals++
+				if derr != nil && c.Intn("retryafterfail", 2) == 0 {
+					// the caller tries again at once: an intact blob, the same Serializer, the same destination - whatever the
+					// failed call started must not reach into this one (a decompressor that was not joined writes late)
+					bl2 := blobs[c.Intn("retryblob", len(blobs))]
+					bl2.lent = true
+					var out2 *simdjson.ParsedJson
+					var derr2 error
+					if err := safely(func() error { out2, derr2 = st.s.Deserialize(bl2.b, dstObj.pj); return nil }); err != nil {
+						walkerFail(r, "deserialize", what+" (right after a failed call)", err)
+						return
+					}
+					trace = append(trace, fmt.Sprintf("deserialize (writer mode %d) into the same dst right after the failed call", bl2.mode))
+					r.Res.Evals++
+					r.stat("deserialize_right_after_failed_call", 1)
+					if derr2 != nil {
+						r.violate("deserialize", "reuse-error:"+msgClass(derr2.Error()), fmt.Sprintf("%s: Deserialize of an intact blob failed right after a failed call on the same destination: %v; history: %v", what, derr2, trace))
+						return
+					}
+					no := &simObj{pj: out2, model: cloneRoots(bl2.model), nd: bl2.nd, copy: true, origin: what + " (after a failed call)"}
+					for i, p := range pool {
+						if p == dstObj {
+							pool = append(pool[:i], pool[i+1:]...)
+							break
+						}
+					}
+					pool = append(pool, no)
+					readBack(r, no, bInto|bAdv, fmt.Sprintf("%s: deserialized right after a failed call on the same destination; history: %v", what, trace), nil)
+				}
 			case 3: // in-place edit of a live object (its tape then carries NOPs and appended strings)
 				var live []*simObj
 				for _, o := range pool {
